@@ -29,7 +29,8 @@ RULE = ("seeded configurations: product (levels 1.1/1.5/3.1, 1-4 images, random 
 ASSUMPTIONS = ["adjacent caches exist only for local products (the tool accepts local paths only)",
                "adjacent-vs-user-dir precedence is not asserted, only transparency",
                "os.stat has no audit event: a bare existence test of an index file is not observable; the poison oracle covers influence"]
-REQUIRED_OBS = ["configs_with_cache", "cached_opens_compared", "poison_checks", "nocache_opens"]
+REQUIRED_OBS = ["configs_with_cache", "cached_opens_compared", "poison_checks", "nocache_opens", "second_cached_opens",
+                "redelivered_with_new_cache"]
 CASE_TIMEOUT = 600
 N = {"quick": 160, "thorough": 4000}
 ALIAS_KEY = "C07/cache-key-aliasing-across-filesystems"
@@ -145,7 +146,7 @@ def run_case(i, tier, seed):
         shutil.rmtree(cachelib.user_cache_root(), ignore_errors=True)
         ref = canon.canon(harness.open_tree(url, use_cache=False, records_per_chunk=rpc_r))
         # --- produce
-        try:
+        def produce():
             if producer == "option" or location == "both":
                 harness.open_tree(url, use_cache=False, create_cache=True, records_per_chunk=rpc_w)
             if producer in ("cli-adjacent", "cli-subprocess") or (location == "both" and producer != "cli-userdir"):
@@ -160,6 +161,9 @@ def run_case(i, tier, seed):
                 if location == "both":
                     for n in imgs:
                         _cli_inprocess(["--rpc", str(rpc_w), os.path.join(local_root, n)])
+
+        try:
+            produce()
         except Exception as e:
             violations.append({"what": f"cache producer '{producer}' failed: {harness.exc_sig(e)}", "detail": detail})
             return {"sig": sig, "evals": 0, "violations": violations, "obs": obs, "nontrivial": False}
@@ -237,6 +241,29 @@ def run_case(i, tier, seed):
         d = canon.diff(ref, canon.canon(tree))
         if d:
             violations.append({"what": f"use_cache=True without any cache differs from the uncached tree: {d[0]}", "detail": detail})
+        # --- the product is re-delivered in place (same root and names, new content) and its caches are produced again:
+        # a cached open must describe the new delivery
+        if not linked and i % 2 == 0:
+            pols = list(dict.fromkeys(n.split("-")[1] for n in imgs))
+            scans = sorted({n.rsplit("-", 1)[-1] for n in imgs if len(n.rsplit("-", 1)[-1]) == 2 and n.rsplit("-", 1)[-1][0] in "BF"}) or [None]
+            files2, info2 = gen.rich_product(rng, [seed, i, 2], level=level, n_images=len(pols), pols=pols, scans=scans, max_lines=9, max_pixels=5,
+                                             mode="WBD" if scans != [None] else "FBD")
+            if sorted(files2) == sorted(files):
+                synth.uninstall(files, root, kind)
+                synth.install(files2, root, kind)
+                try:
+                    produce()
+                    ref3 = canon.canon(harness.open_tree(url, use_cache=False, records_per_chunk=rpc_r))
+                    got3 = canon.canon(harness.open_tree(url, use_cache=True, records_per_chunk=rpc_r))
+                    obs["redelivered_with_new_cache"] = obs.get("redelivered_with_new_cache", 0) + 1
+                    d = canon.diff(ref3, got3)
+                    if d:
+                        violations.append({"what": f"after re-delivery in place and re-creation of the cache the cached tree differs from the uncached one at {len(d)} leaves, first: {d[0]}",
+                                           "detail": dict(detail, diff=d[:5])})
+                except Exception as e:
+                    violations.append({"what": f"after re-delivery in place: {harness.exc_sig(e)}", "detail": detail})
+                finally:
+                    synth.uninstall(files2, root, kind)
     finally:
         synth.uninstall(files, root, kind)
         shutil.rmtree(store, ignore_errors=True)
